@@ -138,9 +138,18 @@ async fn scripted(ctx: &mut Ctx, nclients: usize, nworkers: usize, per: u32, cap
             3 => {
                 for c in &clients {
                     c.conn.release_all();
+                    if r.chance(1, 3) {
+                        // like a tokio stream whose task budget ran out
+                        c.conn.yield_next_reads(r.range(1, 2) as u32);
+                        ctx.count("cooperative_yields_during_proxy_poll");
+                    }
                 }
                 for w in &workers {
                     w.conn.release_all();
+                    if r.chance(1, 3) {
+                        w.conn.yield_next_reads(r.range(1, 2) as u32);
+                        ctx.count("cooperative_yields_during_proxy_poll");
+                    }
                 }
                 both_ready += 1;
                 if let Poll::Ready(res) = px.poll_once() {
@@ -556,6 +565,7 @@ impl Prop for C15 {
             ("both_sides_ready_in_one_poll", 100),
             ("runs_with_2_clients_and_2_workers", 50),
             ("capture_runs", 50),
+            ("cooperative_yields_during_proxy_poll", 100),
             ("client_reconnects_under_its_identity", 20),
             ("captured_copies", 1000),
         ]
